@@ -349,7 +349,7 @@ def trs_pool(rare_first=True):
         g = nx.Graph()
         g.add_nodes_from(range(rec["n"]))
         g.add_edges_from(rec["edges"])
-        out.append((len(rare & set(rec.get("new_transitions", []))) + len(rare & set(rec.get("rare_transitions", []))), g))
+        out.append((len(set(rec.get("rare_transitions", []))), g))
     if rare_first:
         out.sort(key=lambda t: -t[0])
     return [g for _, g in out]
@@ -365,7 +365,7 @@ def inv_pool():
         return []
     d = json.load(open(path))
     rare = set(d.get("rarely_executed", {}))
-    recs = sorted(d["states"], key=lambda r: -len(rare & set(r.get("new_transitions", []))))
+    recs = sorted(d["states"], key=lambda r: -len(r.get("rare_transitions", [])))
     return [r["rows"] for r in recs]
 
 
